@@ -1698,6 +1698,68 @@ DEFAULT_MODELS = {
 }
 
 
+def _det_inv(A):
+    """closed-form inverse (adjugate/determinant) for 1x1, 2x2, 3x3 object matrices"""
+    n = A.shape[0]
+    if A.shape != (n, n) or n > 3:
+        raise EngineError("symbolic inverse only modelled up to 3x3 (got %s)" % (A.shape,))
+    if n == 1:
+        det = A[0, 0]
+        adj = np.empty((1, 1), dtype=object)
+        adj[0, 0] = 1
+    elif n == 2:
+        det = A[0, 0] * A[1, 1] - A[0, 1] * A[1, 0]
+        adj = np.empty((2, 2), dtype=object)
+        adj[0, 0], adj[0, 1], adj[1, 0], adj[1, 1] = A[1, 1], -A[0, 1], -A[1, 0], A[0, 0]
+    else:
+        adj = np.empty((3, 3), dtype=object)
+        for i in range(3):
+            for j in range(3):
+                r = [x for x in range(3) if x != j]
+                c = [x for x in range(3) if x != i]
+                m = A[r[0], c[0]] * A[r[1], c[1]] - A[r[0], c[1]] * A[r[1], c[0]]
+                adj[i, j] = m if (i + j) % 2 == 0 else -m
+        det = A[0, 0] * adj[0, 0] + A[0, 1] * adj[1, 0] + A[0, 2] * adj[2, 0]
+    return adj, det
+
+
+def m_linalg_inv(interp, A):
+    if not contains_sym(A):
+        return interp.call_real(np.linalg.inv, [A], {})
+    A = obj_array(A)
+    adj, det = _det_inv(A)
+    return np.frompyfunc(lambda x: x / det, 1, 1)(adj)
+
+
+def m_linalg_solve(interp, A, B):
+    if not contains_sym(A) and not contains_sym(B):
+        return interp.call_real(np.linalg.solve, [A, B], {})
+    A, B = obj_array(A), obj_array(B)
+    adj, det = _det_inv(A)
+    X = np.dot(adj, B)
+    return np.frompyfunc(lambda x: x / det, 1, 1)(X)
+
+
+def m_linalg_norm(interp, A, ord=None, axis=None, **k):
+    if not contains_sym(A):
+        return interp.call_real(np.linalg.norm, [A, ord, axis], k)
+    if axis is not None or ord not in (None, 'fro', 2):
+        raise EngineError("norm variant not modelled on symbolic arrays")
+    A = obj_array(np.asarray(A, dtype=object))
+    if ord == 2 and A.ndim != 1:
+        raise EngineError("spectral norm not modelled")
+    tot = 0
+    for v in A.flat:
+        v = sym.to_complex(v) if isinstance(v, (SComplex, complex)) else v
+        tot = tot + (v.abs2() if isinstance(v, SComplex) else v * v)
+    return lift(tot).to_real().sqrt()
+
+
+DEFAULT_MODELS[np.linalg.inv] = m_linalg_inv
+DEFAULT_MODELS[np.linalg.solve] = m_linalg_solve
+DEFAULT_MODELS[np.linalg.norm] = m_linalg_norm
+
+
 def _register_scipy_models():
     try:
         from scipy.special import erfc
